@@ -138,7 +138,12 @@ pub fn gen_val(rng: &mut Rng, depth: u32, big: bool, uniq: &mut u64) -> Val {
             if big && rng.chance(0.5) {
                 Val::Big {
                     ch: *rng.pick(&['a', 'é', '𝄞']),
-                    len: *rng.pick(&[3000usize, 8100, 8192, 9000, 20000]),
+                    // around one and two blob pages (8182 data bytes per page) as well
+                    len: match rng.below(8) {
+                        0 => 8150 + rng.below(45) as usize,
+                        1 => 16330 + rng.below(45) as usize,
+                        _ => *rng.pick(&[3000usize, 8100, 8192, 9000, 20000]),
+                    },
                     tag: *uniq,
                 }
             } else {
